@@ -432,6 +432,16 @@ def r5(ctx: Ctx):
   else:
     ctx.fail(rule, ra, 'release_all: if worker.is_available(self): worker.release()',
              'a pool can release workers owned by another pool', node=ra.node)
+  dom = [x for x in walk_no_nested(ra.node) if isinstance(x, ast.Assign)
+         and isinstance(x.value, ast.BoolOp) and isinstance(x.value.op, ast.Or)]
+  ok_dom = any(unparse(x.value.values[-1]) in ('self._workers', 'self.all_workers') for x in dom)
+  if ok_dom:
+    ctx.ok(rule, ra, 'release_all defaults to ALL workers of the pool', dom[0])
+  else:
+    ctx.fail(rule, ra, 'release_all: workers = workers or self._workers',
+             'without an explicit list release_all does not range over every'
+             ' worker of the pool (e.g. only the alive ones): a worker that died'
+             ' while acquired stays locked and owned forever', node=ra.node)
   ia = repo.func(CW, 'Worker.is_available')
   txt = unparse([x for x in walk_no_nested(ia.node) if isinstance(x, ast.Return)][0].value)
   p = ia.params()[1]
@@ -441,7 +451,7 @@ def r5(ctx: Ctx):
   else:
     ctx.fail(rule, ia, 'is_available: not self._lock.locked() or self._worker_pool is worker_pool',
              f'is_available is `{txt}`', node=ia.node)
-  ctx.floor(rule, 7)
+  ctx.floor(rule, 8)
 
 
 def _acquire_nodes(g, fi):
@@ -679,6 +689,8 @@ VARIANTS = [
     B('release-all-unguarded', _W,
       '      if worker.is_available(self):\n        worker.release()', '      worker.release()',
       'R-C20-5'),
+    B('release-all-alive-only', _W, '    workers = workers or self._workers\n    for worker in workers:\n      if worker.is_available(self):',
+      '    workers = workers or self.workers\n    for worker in workers:\n      if worker.is_available(self):', 'R-C20-5'),
     B('call-and-wait-no-finally', _W,
       '      result = get_results(states)\n    except Exception as e:  # pylint: disable=broad-exception-caught\n      raise e\n    finally:\n      self.release_all()\n    return result',
       '      result = get_results(states)\n    except Exception as e:  # pylint: disable=broad-exception-caught\n      raise e\n    self.release_all()\n    return result',
